@@ -94,4 +94,5 @@ void probe () {
   }
   VL ("P objects " + join_ids (reg_ids (objects ())));
   VL ("P livings " + join_ids (reg_ids (livings ())));
+  VL ("P heartbeats " + join_ids (reg_ids (heart_beats ())));
 }
